@@ -114,6 +114,15 @@ pub struct Connection {
     fragment_assembler: FragmentAssembler,
 }
 
+/// Length prefix of a distribution frame. A frame the 4-byte prefix cannot express is refused
+/// instead of being written with a wrapped-around length.
+fn frame_len(len: usize) -> Result<u32> {
+    u32::try_from(len).map_err(|_| Error::MessageTooLarge {
+        size: len,
+        max: u32::MAX as usize,
+    })
+}
+
 impl Connection {
     pub fn new(config: ConnectionConfig) -> Self {
         let handshake = HandshakeStateMachine::new(
@@ -593,7 +602,7 @@ impl Connection {
                     .write_half_mut()
                     .ok_or_else(|| Error::InvalidStateMessage("no active stream".to_string()))?;
 
-                stream.write_u32(total_len as u32).await?;
+                stream.write_u32(frame_len(total_len)?).await?;
                 stream.write_u8(PASS_THROUGH).await?;
                 stream.write_all(&control_encoded).await?;
                 stream.write_all(&msg_encoded).await?;
@@ -611,7 +620,7 @@ impl Connection {
                     .write_half_mut()
                     .ok_or_else(|| Error::InvalidStateMessage("no active stream".to_string()))?;
 
-                stream.write_u32(total_len as u32).await?;
+                stream.write_u32(frame_len(total_len)?).await?;
                 stream.write_u8(PASS_THROUGH).await?;
                 stream.write_all(&control_encoded).await?;
                 stream.flush().await?;
@@ -623,7 +632,7 @@ impl Connection {
 
         if let Some(msg) = message {
             let encoded = erltf::encode_with_dist_header_multi(&[&control_term, &msg])?;
-            buf.put_u32(encoded.len() as u32);
+            buf.put_u32(frame_len(encoded.len())?);
             buf.put_slice(&encoded);
 
             trace!("Sending DIST_HEADER message: total_len={}", encoded.len());
@@ -633,7 +642,7 @@ impl Connection {
             );
         } else {
             let encoded = erltf::encode_with_dist_header(&control_term)?;
-            buf.put_u32(encoded.len() as u32);
+            buf.put_u32(frame_len(encoded.len())?);
             buf.put_slice(&encoded);
 
             trace!("Sending DIST_HEADER control: total_len={}", encoded.len());
